@@ -126,6 +126,28 @@ EXTRA3 = {
  "C20": " Also: svd_denoise_npx at full rank for every split of 2..48 (and 96, 385) channels into collections of unequal sizes; label vectors with as many values as traces.",
 }
 
+EXTRA4 = {
+ "C01": " Also: arrays of sample indices in int16 / uint16 / uint8 / int32 / uint32; clause folder-neighbours (UUID dataset names next to another acquisition's metadata, data files symlinked into a store, band names in folder names).",
+ "C02": " Also: numpy-integer and one-channel single-sample selectors; entry points x place (plain, symbolic link into a store, UUID names + decoy metadata, relative path).",
+ "C03": " Clause value-patterns: zero stretches longer than two windows, rails, constants, calibrated sampling rates, AP file names without the dotted band, with and without the converter's post-check.",
+ "C04": " Clause single-runs: 60013-sample recordings at calibrated rates and conversions restricted to a subset of the shanks with delete_original=True.",
+ "C05": " Also: recorded data skewed with physical ADC delays written independently of the library's table; raw integer counts as a presentation class; referencing called with the destriper's option dictionary; gain control on constant / rail / partly silent rows.",
+ "C06": " Also: scalar whitening amplitude, recordings at 2.5 kHz / 20 kHz / calibrated rates.",
+ "C08": " Clause folder-neighbours (shared with C01).",
+ "C09": " Also: durations written with a few decimals; metadata files not called *.meta next to a decoy of the same stem.",
+ "C10": " Also: threshold exactly 0; nidq gains other than 1; the data file as a symbolic link into a store holding other metadata.",
+ "C11": " Also: zero-filled tails and all-zero files; compressed streams opened through symbolic links.",
+ "C12": " Also: signals above the 13-bit ADC range; extreme sync words on LF-sampled positions; clause folder-neighbours (shared with C01).",
+ "C13": " Also: loader asked for indices only some units have, with decoy datasets lying in the folder; a fan-out that hands joblib no task is judged by its result.",
+ "C14": " Also: NaN-padded batches as non-contiguous views; extraction under np.errstate(all='raise').",
+ "C15": " Also: calibrated AP sampling rates; band names and dots in folder names; a moderately noisy channel in the file clause.",
+ "C16": " Also: taper width 0; the same relative path under two working directories (range_volts end to end).",
+ "C17": " Clause slice-array: windows cut out of 1-D / 2-D / 3-D arrays along every axis; object histories with nested and lock-step generators.",
+ "C18": " Also: band-pass corners at zero frequency.",
+ "C19": " Clause close-pair: linear mode on a 300-event train with a close pair of events carrying opposite extreme jitter at every position.",
+ "C20": " Clause venn-dense: more than 255 (thorough: 65535) spikes of one sorter in one time x channel bin.",
+}
+
 ALL = ["C%02d" % i for i in range(1, 21)]
 PENDING_REASON = "check not built yet in this round (planned, see DESIGN.md section 3); no claim is made until it is"
 
@@ -142,7 +164,7 @@ def main():
             "evidence_file": "/verif/evidence/%s.json" % pid,
             "replay_cmd_template": "%s /verif/run.py %s --replay {path}" % (PY, pid),
             "engine": c["engine"],
-            "level_claimed": {"category": c.get("category", "model_checking"), "text": c["text"] + EXTRA.get(pid, "") + EXTRA2.get(pid, "") + EXTRA3.get(pid, ""), "design_ref": "DESIGN.md " + c["ref"]},
+            "level_claimed": {"category": c.get("category", "model_checking"), "text": c["text"] + EXTRA.get(pid, "") + EXTRA2.get(pid, "") + EXTRA3.get(pid, "") + EXTRA4.get(pid, ""), "design_ref": "DESIGN.md " + c["ref"]},
             "level_note": c["note"],
             "technique": c["technique"],
         })
